@@ -51,11 +51,12 @@ func ruleL1(r *Run, le *LockEngine) {
 		fnWith++
 		sites += len(fi.Acquires)
 		name := fnName(fn)
-		if len(fi.Reports) == 0 {
+		reports := le.EffectiveReports(fn)
+		if len(reports) == 0 {
 			r.Check(name, true, p.pos(fn.Pos()), name, fmt.Sprintf("%d lock events, %d acquire sites, %d exits, %d lock states explored; all exits release", fi.Events, len(fi.Acquires), fi.Returns, fi.StatesSeen))
 			continue
 		}
-		for _, rep := range fi.Reports {
+		for _, rep := range reports {
 			key := name + " " + rep.Kind + " " + rep.Key
 			if rep.Kind == "unresolved" {
 				r.Undecided(key, rep.Detail+" at "+p.pos(rep.At))
